@@ -1443,6 +1443,38 @@ func c15Limits(d *vCtx) error {
 	d.set("scan_entries", len(list))
 	d.set("scan_dirfds", dirfds)
 	list = nil
+	// 1b. a chain of nested directories deeper than the limit: the scan may hold a few handles at a time, not one
+	// per level
+	{
+		deep := &c15Tree{Top: "chain"}
+		depth := n / 2
+		for i := 0; i < depth; i++ {
+			deep.Nodes = append(deep.Nodes, c15Node{Dir: true, Name: fmt.Sprintf("n%d", i), Parent: i - 1})
+		}
+		deepBase := filepath.Join(root, "deep", "src")
+		dtop, err := c15Materialise(deepBase, deep)
+		if err != nil {
+			return err
+		}
+		runtime.GC()
+		time.Sleep(20 * time.Millisecond)
+		if err := syscall.Setrlimit(syscall.RLIMIT_NOFILE, &lim); err != nil {
+			return err
+		}
+		dlist, derr := checkPathsReadable([]string{dtop}, true)
+		_, _, dfds := c15Fds(deepBase, filepath.Join(root, "deep", "dst"))
+		restore()
+		tr.Emit(map[string]any{"e": "reset", "run": 3, "kind": "limit-scan", "entries": depth, "pipelined": false, "top": deep.Top}, nil)
+		if derr != nil {
+			msg := strings.SplitN(derr.Error(), "\n", 2)[0]
+			tr.Emit(map[string]any{"e": "scan", "res": "err", "cls": c15ErrClass(msg), "dirfds": dfds, "msg": msg}, nil)
+			d.set("deep_scan_err", msg)
+		} else {
+			tr.Emit(map[string]any{"e": "scan", "res": "ok", "cls": "", "dirfds": dfds}, nil)
+		}
+		d.set("deep_scan_entries", len(dlist))
+		d.set("deep_scan_depth", depth)
+	}
 	runtime.GC() // the handles the scan left behind must not disturb the second part
 	time.Sleep(20 * time.Millisecond)
 	runtime.GC()
@@ -1468,7 +1500,7 @@ func c15Limits(d *vCtx) error {
 	}
 	d.set("nofile", int(lim.Cur))
 	d.set("events", tr.Len()+tr2.Len())
-	d.set("runs", 2)
+	d.set("runs", 3)
 	if err := tr.Close(); err != nil {
 		return err
 	}
